@@ -108,6 +108,9 @@ func cmdRawWrite(f hx.Flags, r *hx.Result) {
 	for _, kind := range kinds {
 		for _, class := range classes {
 			for _, writers := range writersSet {
+				if hx.Stopped() {
+					break
+				}
 				n++
 				perWriter := 6
 				if class == "large" {
